@@ -215,6 +215,29 @@ def coq_case(obs, backend):
             f"| Refuse => \"REFUSE\" | Crash => \"CRASH\" end")
 
 
+def coq_check_cases(obs, backend, requested):
+    """one Coq term `scheme_checks cfg be requested steps` per observed scheme
+    (hypotheses of the C17 theorems as decidable checks)"""
+    ictx = adcio.IdxCtx()
+    be = "Einsum" if backend == "einsum" else "Libtensor"
+    req = coq_idx_list(ictx, requested)
+    out = []
+    for _, rec in obs.schemes:
+        if rec[0] != "ok":
+            continue
+        r = rec[1]
+        steps = r if isinstance(r, list) else [r]
+        out.append(f"scheme_checks {coq_tnames()} {be} {req} "
+                   + adcio.coq_list(coq_step(ictx, c) for c in steps))
+    return out
+
+
+def parse_checks(val):
+    """'{| c_names := true; ... |}' -> dict"""
+    return {k: v == "true" for k, v in re.findall(r"(c_\w+) := (true|false)",
+                                                  val or "")}
+
+
 def expected_verdict(obs):
     return {"ok": '"same"', "refuse": '"REFUSE"', "crash": '"CRASH"'}[
         obs.outcome]
